@@ -32,3 +32,25 @@ func init() {
 			Old: "                 and m.ledger = _ledger\n", New: "", Expect: "R04b:sql.aggregate_ledger_volumes:from-moves"},
 	)
 }
+
+func init() {
+	const acc = "internal/storage/ledgerstore/accounts.go"
+	const bal = "internal/storage/ledgerstore/balances.go"
+	addMutants(
+		Mutant{Property: "C04", Name: "balance-filter-subselect-scopes-the-outer-row", File: acc,
+			Old: "\t\t\t\twhere asset = ? and account_address = accounts.address and ledger = ?", New: "\t\t\t\twhere asset = ? and account_address = accounts.address and accounts.ledger = ?",
+			Expect: "R04c:"},
+		Mutant{Property: "C04", Name: "balance-filter-subselect-unscoped", File: acc,
+			Old: "\t\t\t\twhere account_address = accounts.address and ledger = ?\n", New: "\t\t\t\twhere account_address = accounts.address and ? is not null\n",
+			Expect: "R04c:"},
+		Mutant{Property: "C04", Name: "balance-filter-subselect-qualified-by-its-table", File: acc,
+			Old: "\t\t\t\twhere asset = ? and account_address = accounts.address and ledger = ?", New: "\t\t\t\twhere moves.asset = ? and moves.account_address = accounts.address and moves.ledger = ?",
+			Expect: "none", Benign: true},
+		Mutant{Property: "C04", Name: "aggregated-balances-scopes-another-table", File: bal,
+			Old: "\t\t\t\tWhere(\"moves.ledger = ?\", store.name).", New: "\t\t\t\tWhere(\"accounts.ledger = ?\", store.name).",
+			Expect: "R04a:"},
+		Mutant{Property: "C04", Name: "lateral-join-keyed-by-address", File: bal,
+			Old: "am.accounts_seq = moves.accounts_seq", New: "am.date < moves.insertion_date",
+			Expect: "R04"},
+	)
+}
